@@ -73,6 +73,9 @@ func c19Try(dir, file string) {
 		return
 	}
 	fmt.Println("load:", r2.Load, r2.Panic)
+	if r2.Load != nil && !r2.Load.Ok {
+		fmt.Println("  load message:", r2.Load.Msg)
+	}
 	_ = os.WriteFile(filepath.Join(dir, "snap2.lisp"), []byte(r2.Snapshot), 0o644)
 	if !r2.Load.Ok {
 		r3, _ := c19RunWorker(dir, &c19Req{Mode: "loadforms", File: "snap1.lisp", Probes: probes, Snap: true})
@@ -126,6 +129,7 @@ type c19Resp struct {
 	Snapshot string   `json:"snapshot"` // text of (snapshot nil)
 	SnapErr  *c19Out  `json:"snap_err"` // when taking the snapshot failed
 	Panic    string   `json:"panic"`    // a Go panic that escaped (machinery or host fault)
+	Died     bool     `json:"-"`        // the process ended without a reply
 }
 
 func c19Outcome(o lib.Outcome) c19Out {
@@ -232,8 +236,27 @@ func c19OneLine(s string) string {
 	return s
 }
 
+// c19WorkerLimit is the wall clock limit of one worker process. It is a distant backstop only (the
+// workers run a few definitions; a second of CPU time): a worker that exceeds it, that cannot be
+// started or that dies without a reply makes the SESSION "flaky", and a flaky session is run again,
+// alone, with c19WorkerLimitAlone before anything is concluded (c19RunSessions). Verdicts therefore
+// do not depend on the load of the machine.
+const (
+	c19WorkerLimit      = 300 * time.Second
+	c19WorkerLimitAlone = 1800 * time.Second
+)
+
+// c19WorkerFlaky: the error of a worker that gave no usable reply for a reason that need not be slip's
+type c19WorkerFlaky struct{ why string }
+
+func (e *c19WorkerFlaky) Error() string { return e.why }
+
 // c19RunWorker starts a fresh worker process in dir and returns its reply.
 func c19RunWorker(dir string, req *c19Req) (*c19Resp, error) {
+	return c19RunWorkerLimit(dir, req, c19WorkerLimit)
+}
+
+func c19RunWorkerLimit(dir string, req *c19Req, limit time.Duration) (*c19Resp, error) {
 	if err := os.MkdirAll(dir, 0o755); err != nil {
 		return nil, err
 	}
@@ -251,16 +274,16 @@ func c19RunWorker(dir string, req *c19Req) (*c19Resp, error) {
 	cmd.Stdout = &out
 	cmd.Stderr = &errb
 	if err = cmd.Start(); err != nil {
-		return nil, err
+		return nil, &c19WorkerFlaky{"cannot start a worker: " + err.Error()} // fork/exec under load: EAGAIN, ENOMEM
 	}
 	done := make(chan error, 1)
 	go func() { done <- cmd.Wait() }()
 	select {
 	case err = <-done:
-	case <-time.After(120 * time.Second):
+	case <-time.After(limit):
 		_ = cmd.Process.Kill()
 		<-done
-		return nil, fmt.Errorf("worker timeout")
+		return nil, &c19WorkerFlaky{fmt.Sprintf("no reply from the worker within %v", limit)}
 	}
 	resp := &c19Resp{}
 	if derr := json.Unmarshal(out.Bytes(), resp); derr != nil {
@@ -269,7 +292,8 @@ func c19RunWorker(dir string, req *c19Req) (*c19Resp, error) {
 		if len(tail) > 600 {
 			tail = tail[len(tail)-600:]
 		}
-		return &c19Resp{Panic: fmt.Sprintf("worker died: %v: %s", err, tail)}, nil
+		// (killed from outside — OOM killer, a signal — looks the same: the session is run again alone)
+		return &c19Resp{Panic: fmt.Sprintf("worker died: %v: %s", err, tail), Died: true}, nil
 	}
 	return resp, nil
 }
